@@ -13,6 +13,9 @@ import (
 // Solver is one long-lived SMT-LIB2 process. Declarations and definitions are global
 // (:global-declarations), the assertion stack mirrors the DFS.
 type Solver struct {
+	gen     int        // process generation; Term.smt caches are valid for one generation
+	stack   [][]*Term  // mirror of the assertion stack (for restart after a hung query)
+	restarts int
 	bin     string
 	cmd     *exec.Cmd
 	in      *bufio.Writer
@@ -31,6 +34,13 @@ type Solver struct {
 const defThreshold = 24 // tree size above which a term gets its own define-fun
 
 func NewSolver(bin string, timeoutMs int) *Solver {
+	s := &Solver{bin: bin, timeout: timeoutMs, gen: 1, stack: [][]*Term{nil}}
+	s.start()
+	return s
+}
+
+func (s *Solver) start() {
+	bin, timeoutMs := s.bin, s.timeout
 	var args []string
 	isZ3 := strings.HasPrefix(bin, "z3") || strings.HasSuffix(bin, "/z3") || strings.Contains(bin, "z3")
 	if isZ3 {
@@ -51,13 +61,29 @@ func NewSolver(bin string, timeoutMs int) *Solver {
 	if err := cmd.Start(); err != nil {
 		panic(err)
 	}
-	s := &Solver{bin: bin, cmd: cmd, inc: in, in: bufio.NewWriterSize(in, 1<<16), out: bufio.NewReaderSize(outp, 1<<20), timeout: timeoutMs}
+	s.cmd, s.inc, s.in, s.out = cmd, in, bufio.NewWriterSize(in, 1<<16), bufio.NewReaderSize(outp, 1<<20)
 	s.send("(set-option :global-declarations true)")
 	s.send("(set-option :produce-models true)")
 	if !isZ3 {
 		s.send("(set-logic QF_BV)")
 	}
-	return s
+}
+
+// restart kills a hung solver process and rebuilds the assertion stack in a fresh one.
+func (s *Solver) restart() {
+	s.cmd.Process.Kill()
+	s.cmd.Wait()
+	s.restarts++
+	s.gen++
+	s.start()
+	for i, lvl := range s.stack {
+		if i > 0 {
+			s.send("(push 1)")
+		}
+		for _, t := range lvl {
+			s.send("(assert " + s.ref(t) + ")")
+		}
+	}
 }
 
 func (s *Solver) send(l string) {
@@ -77,7 +103,7 @@ func sortOf(w int) string {
 
 // ref returns SMT text for t; all declarations / definitions it needs have been sent.
 func (s *Solver) ref(t *Term) string {
-	if t.smt != "" {
+	if t.smt != "" && t.smtGen == s.gen {
 		return t.smt
 	}
 	var str string
@@ -120,13 +146,15 @@ func (s *Solver) ref(t *Term) string {
 		str = name
 	}
 	t.smt = str
+	t.smtGen = s.gen
 	return str
 }
 
-func (s *Solver) Push() { s.send("(push 1)") }
-func (s *Solver) Pop()  { s.send("(pop 1)") }
+func (s *Solver) Push() { s.send("(push 1)"); s.stack = append(s.stack, nil) }
+func (s *Solver) Pop()  { s.send("(pop 1)"); s.stack = s.stack[:len(s.stack)-1] }
 func (s *Solver) Assert(t *Term) {
 	s.send("(assert " + s.ref(t) + ")")
+	s.stack[len(s.stack)-1] = append(s.stack[len(s.stack)-1], t)
 }
 
 type solverError struct{ msg string }
@@ -136,7 +164,33 @@ func (s *Solver) Check() string {
 	t0 := time.Now()
 	s.send("(check-sat)")
 	s.in.Flush()
-	line, err := s.out.ReadString('\n')
+	type rd struct {
+		line string
+		err  error
+	}
+	ch := make(chan rd, 1)
+	out := s.out
+	go func() {
+		l, e := out.ReadString('\n')
+		ch <- rd{l, e}
+	}()
+	var line string
+	var err error
+	hard := time.Duration(s.timeout)*time.Millisecond*2 + 5*time.Second
+	if s.timeout == 0 {
+		hard = 24 * time.Hour
+	}
+	select {
+	case r := <-ch:
+		line, err = r.line, r.err
+	case <-time.After(hard):
+		// the soft timeout was ignored: kill, rebuild the stack in a new process, answer unknown
+		s.restart()
+		s.queries++
+		s.unknown++
+		s.dur += time.Since(t0)
+		return "unknown"
+	}
 	if err != nil {
 		panic(solverError{"solver died: " + err.Error()})
 	}
